@@ -173,6 +173,15 @@ INVALID = ["(", ")", "a)", "(a", "[", "[a", "a]b[", "\\d", "\\w+", "\\s", "(?:a)
 NONSTRINGS = [None, True, False, 0, 1, 1.5, [], ["a"], {}, {"a": "a"}, [["a"]]]
 
 
+def _plain(e):
+    """The AST without the generator's spelling tags on quantifiers (('rep', x, lo, hi, spelling) -> ('rep', x, lo, hi))."""
+    if not isinstance(e, tuple):
+        return e
+    if e and e[0] == "rep":
+        e = e[:4]
+    return tuple(_plain(x) for x in e)
+
+
 def plan(tier, seed, nproc, scale):
     shards = nproc if tier == "quick" else nproc * 4
     n = int((9000 if tier == "quick" else 250000) * scale)
@@ -208,6 +217,11 @@ def run_shard(spec, rec):
             continue
         except IR.Invalid as ex:
             rec.note("GENERATOR-SLIP: %r rendered from a valid AST does not parse: %s" % (p, ex))
+            rec.feat("generator-slip")
+            continue
+        if back != _plain(e):
+            # the oracle runs on e, the library sees p: they must denote the same expression (reviews/iregexp.md, D7)
+            rec.note("GENERATOR-SLIP: %r parses back to a different AST" % (p,))
             rec.feat("generator-slip")
             continue
         subs = {sample(R, e) for _ in range(3)} | {"".join(R.choice(ALPHA) for _ in range(R.randint(0, 4))) for _ in range(2)}
